@@ -53,14 +53,25 @@ Lemma vanilla_shadow_original :
   send (final h_vanilla) 3 (MUser 0) None = ([Ev 20], RVal 20).
 Proof. vm_compute. repeat split. Qed.
 
-(* (4) still there: with whoppers on three flavors in a row the third one is skipped (outside g_whop) *)
+(* (4) with whoppers on three flavors in a row the ORIGINAL continue-whopper skipped the third one (repaired by
+   repo_fixes/C10-2.patch: whoploc.go is shared with the generic functions of C10) *)
+Definition send_orig (st : state) (f : nat) (m : mid) (arg : option Z) : out :=
+  match find_flavor st f with
+  | None => ([], ROther)
+  | Some fl => match lookup mid_eqb m (f_meths fl) with
+               | None => ([], RNoMethod)
+               | Some tbl => let cs := map (deref (st_heap st)) tbl in
+                             method_call_orig cs (inner_call true false (inst_vars fl) arg cs)
+               end
+  end.
 Definition h_whoppers : list form :=
   [fl 1 []; fl 2 [1]; fl 3 [2]; DMethod 3 DPrimary (MUser 1) 30 false;
    DMethod 3 DWhopper (MUser 1) 33 true; DMethod 2 DWhopper (MUser 1) 23 true; DMethod 1 DWhopper (MUser 1) 13 true].
 Lemma third_whopper_history :
-  wf h_whoppers = true /\ g_whop (s_table (spec h_whoppers) 3 (MUser 1)) = false /\
-  send (final h_whoppers) 3 (MUser 1) None = ([Ev 33; Ev 23; Ev 30; EvEnd 23; EvEnd 33], RVal 30) /\
-  s_send (s_var (decls h_whoppers) 3) None (s_table (spec h_whoppers) 3 (MUser 1)) = ([Ev 33; Ev 23; Ev 13; Ev 30; EvEnd 13; EvEnd 23; EvEnd 33], RVal 30).
+  wf h_whoppers = true /\
+  send_orig (final h_whoppers) 3 (MUser 1) None = ([Ev 33; Ev 23; Ev 30; EvEnd 23; EvEnd 33], RVal 30) /\
+  s_send (s_var (decls h_whoppers) 3) None (s_table (spec h_whoppers) 3 (MUser 1)) = ([Ev 33; Ev 23; Ev 13; Ev 30; EvEnd 13; EvEnd 23; EvEnd 33], RVal 30) /\
+  send (final h_whoppers) 3 (MUser 1) None = ([Ev 33; Ev 23; Ev 13; Ev 30; EvEnd 13; EvEnd 23; EvEnd 33], RVal 30).
 Proof. vm_compute. repeat split. Qed.
 
 (* ---- non-vacuity ------------------------------------------------------------------------------------------------------ *)
@@ -76,7 +87,6 @@ Definition h_example : list form :=
 Lemma example_history :
   wf h_example = true /\ writes_once h_example /\ defined (decls h_example) 4 = true /\
   fullprec (decls h_example) 4 = [4; 2; 1; 3; 0] /\
-  g_whop (s_table (spec h_example) 4 (MUser 1)) = true /\
   send (final h_example) 4 (MUser 1) None = ([Ev 23; Ev 13; Ev 21; Ev 31; Ev 40; Ev 12; EvEnd 13; EvEnd 23], RVal 40) /\
   send (final h_example) 4 (MUser 0) None = ([Ev 15; Ev 36], RNil) /\
   send (final h_example) 4 (MGet 0) None = ([], RVal 102) /\ send (final h_example) 4 (MGet 1) None = ([], RNil) /\
